@@ -5,7 +5,7 @@ Encoding of an argument by declared type (all integers on one line):
   abstract interface → see ABS_PARSERS of the specs | object → the arguments of its (translated) constructor
 Answer: `OK <canonical value>` / `ERR <PythonExceptionName>` (canonical: py2lean_selftest.canon)."""
 from py2lean_types import (TInt, TBool, TStr, TNone, TRange, TErased, TList, TOpt, TTuple, TDict, TObj, TAbs, TExc,
-                           TUnion, TVar, THet, TBuilder, TFun, resolve, proj)
+                           TUnion, TVar, THet, TBuilder, TFun, TEffect, TEffectClass, resolve, proj)
 
 
 def ty_json(t):
@@ -42,6 +42,10 @@ def ty_json(t):
         return {"k": "het", "e": ty_json(t.elem), "tails": [ty_json(x) for x in t.tails]}
     if isinstance(t, TFun):
         return {"k": "fun"}
+    if isinstance(t, TEffect):
+        return {"k": "effect", "name": t.name}
+    if isinstance(t, TEffectClass):
+        return {"k": "effect_class", "name": t.name}
     if isinstance(t, TBuilder):
         return {"k": "builder", "cls": t.cls, "ctor": ty_json(t.ctor_ty()), "cmd": t.cmd, "args": ty_json(t.cmd_ty())}
     raise ValueError(t)
@@ -62,6 +66,10 @@ def parser(t, reg, specs):
         return "str"
     if isinstance(t, TExc):
         return "GenUtil.outcome"
+    if isinstance(t, TEffectClass):
+        return "int"                      # which class renders the result: 0 = CNF, 1 = OPB
+    if isinstance(t, TEffect):
+        raise NoDriver("an effect object as an argument")
     if isinstance(t, TList):
         return "(listOf {})".format(parser(t.elem, reg, specs))
     if isinstance(t, TOpt):
@@ -115,6 +123,9 @@ def shower(t, x, reg):
         return shower(TTuple([TList(t.elem)] + t.tails), x, reg)
     if isinstance(t, TBuilder):
         return shower(TTuple([t.ctor_ty(), TList(t.cmd_ty())]), x, reg)
+    if isinstance(t, TEffect):
+        # the formula, rendered by the class the request names (`Formula.toCNF` / `toOPB` of Build/Constr.lean)
+        return "(fmtFormula «CLS» (Formula.mk ({x}).numvar.toNat ({x}).cons))".format(x=x)
     if isinstance(t, TDict):
         return "(GenUtil.showList (fun z => {} ++ \":\" ++ {}) {})".format(shower(t.k, "z.1", reg), shower(t.v, "z.2", reg), x)
     if isinstance(t, TUnion):
@@ -175,6 +186,8 @@ def handler(i, fn, reg, specs):
     call_self = None
     cm = True
     if fn.self_ty is not None and not fn.is_init:
+        if isinstance(fn.self_ty, TEffect):
+            raise NoDriver("a procedure on an effect object (exercised through the families that call it)")
         if isinstance(fn.self_ty, TBuilder):
             call_self, cm = "(((), ([] : List {})))".format(fn.self_ty.cmd_ty().lean()), False
         else:
@@ -182,7 +195,7 @@ def handler(i, fn, reg, specs):
     names = []
     for p, t in fn_params(fn):
         if isinstance(resolve(t), TFun):
-            term = getattr(specs, "DRIVER_CALLS", {}).get((fn.cls, p))
+            term = getattr(specs, "DRIVER_CALLS", {}).get((fn.cls, p)) or getattr(specs, "DRIVER_CALLS", {}).get((None, p))
             if term is None:
                 raise NoDriver("no driver term for the abstract call " + p)
             names.append(term)
@@ -190,6 +203,9 @@ def handler(i, fn, reg, specs):
         lines.append("let a_{} ← {}".format(p, parser(t, reg, specs)))
         names.append("a_" + p)
     show = shower(fn.ret, "r", reg)
+    cls_params = ["a_" + p for p, t in fn.params if isinstance(t, TEffectClass)]
+    show = show.replace("«CLS»", cls_params[0] if cls_params else "0")
+    names = [n for n in names if n not in cls_params]
     fuel = ["1000"] if getattr(fn, "recursive", False) else []
     if call_self is None:
         call = " ".join([fn.lean] + fuel + names)
